@@ -369,6 +369,12 @@ fn gen_prog(rng: &mut TestRng, i: usize, which: Which) -> ChainProg {
         // (C12: every fifth name is a raw identifier)
         let raw = which == Which::C12 && rb(g.rng, 0.2);
         let let_name = if rb(g.rng, if which == Which::C12 || shadow { 0.85 } else { 0.25 }) { Some((format!("{}nm{}", if raw { "r#" } else { "" }, b), rb(g.rng, 0.3))) } else { None };
+        // a fifth of the initial values are spelled as a plain local variable of the calling function
+        // (the value is moved into the macro, never copied or cloned)
+        if which != Which::C14 && !frag_c01 && !borrowed && rb(g.rng, 0.2) {
+            locals.push(format!("let __iv{} = {};", b, init_text));
+            init_text = format!("__iv{}", b);
+        }
         branches.push(ChainBranch { locals, let_name, init_ty: init_ty.clone(), init_text: init_text.clone(), ops, fin });
     }
     // C17: a handler whose body is a nested macro invocation over the results
@@ -478,7 +484,16 @@ fn gen_prog(rng: &mut TestRng, i: usize, which: Which) -> ChainProg {
         }
     }
     // C19: the non-spawning async macros with a (pass-through) custom joiner must not add a Send bound either
-    let options = if which == Which::C19 && kind.is_async && branches.len() >= 2 && rb(rng, 0.4) { format!("custom_joiner(jvrt::{}!) ", if kind.is_try { "jv_ptry" } else { "jv_pjoin" }) } else { String::new() };
+    // ... nor may `lazy_branches(true)` with a joiner that calls the branch closures in the sequential macros
+    let options = if which == Which::C19 && kind.is_async && branches.len() >= 2 && rb(rng, 0.4) {
+        format!("custom_joiner(jvrt::{}!) ", if kind.is_try { "jv_ptry" } else { "jv_pjoin" })
+    } else if which == Which::C19 && !kind.is_async && !kind.is_spawn && branches.len() >= 2 && !branches.iter().any(|b| b.init_text.contains("iter_mut")) && rb(rng, 0.4) {
+        // (a branch that hands out a reborrow of a `&mut` local cannot be a closure in plain Rust either:
+        // `move || m.iter_mut()` does not compile - such programs keep eager branches)
+        if rb(rng, 0.5) { "lazy_branches(true) custom_joiner(jvrt::jv_plazy!) ".to_string() } else { "custom_joiner(jvrt::jv_plazy!) lazy_branches(true) ".to_string() }
+    } else {
+        String::new()
+    };
     // C12: a third of the invocations come out of a `macro_rules!` wrapper that is given the names
     let mr_wrap = which == Which::C12 && rb(rng, 0.35);
     ChainProg { fam, mac: mac.to_string(), branches, nestings, handler, options, nest_pairs, mr_wrap, frag: if which == Which::C14 || frag_c01 { 1 } else { 0 } }
